@@ -165,7 +165,7 @@ Definition justified (names : list bytes) (n : bytes) : bool :=
 
 Definition live_records (m : omsg) : list rr := filter (fun r => negb (r_ttl r =? 0)) (o_an m ++ o_ar m).
 
-Definition c09_iter (st : dstate) (it : iter) (post : dstate) (obs : list out) : list verdict :=
+Definition c09_iter (st : dstate) (it : iter) (post : dstate) (obs : list out) (wake : option N) : list verdict :=
   let now := it_now it in
   let g4 := filter (fun g => g_v4 g) (it_dgrams it) in
   let g6 := filter (fun g => negb (g_v4 g)) (it_dgrams it) in
@@ -185,7 +185,16 @@ Definition c09_iter (st : dstate) (it : iter) (post : dstate) (obs : list out) :
                   if forallb (fun r => justified names (r_name r)) (live_records m) then [] else [VFail 3]
                 else [])
       (sends_of obs) in
-  v_reply ++ v_gb ++ v_quiet.
+  (* the repeat of a goodbye is due 120 ms later: the daemon asks to be woken by then *)
+  let pending := flat_map (fun e => match snd e with UnregisterResend _ _ _ => [fst e] | _ => [] end) (d_retrans post) in
+  let v_wake :=
+    if d_dead post then []
+    else match pending with
+         | [] => []
+         | d0 :: t => let d := fold_left N.min t d0 in
+                      match wake with Some w => if w <=? d then [] else [VFail 4] | None => [VFail 4] end
+         end in
+  v_reply ++ v_gb ++ v_quiet ++ v_wake.
 
 (* ======================================================================================================
    C08  after a rename, every packet uses the new names; the daemon thread survives
@@ -320,10 +329,9 @@ Record g7 : Type := mkG7 {
   g_ann : list (pkey * (N * N * bool));  (* instance -> (time of the first announcement, announcements so far,
                                       first announced while an interface was being added) *)
   g_unreg : bool;                  (* an unregister or shutdown call was made *)
-  g_toggled : bool;                (* enable_interface / disable_interface was called *)
-  g_unarmed : list (pkey * N) }.   (* probes created while a RegisterResend ran: (interface, name) -> next_send *)
+  g_toggled : bool }.              (* enable_interface / disable_interface was called *)
 
-Definition g7_init : g7 := mkG7 [] [] [] [] false None [] false false [].
+Definition g7_init : g7 := mkG7 [] [] [] [] false None [] false false.
 
 Definition dedup_by {A} (eqb : A -> A -> bool) (l : list A) : list A :=
   fold_left (fun acc x => if existsb (eqb x) acc then acc else acc ++ [x]) l [].
@@ -434,25 +442,11 @@ Definition c07_iter (g : g7) (st : dstate) (it : iter) (post : dstate) (obs : li
       (sends_of obs) in
   (* 3. the daemon asks to be woken no later than its next due work *)
   let due := due_work post in
-  (* known deviation: a probe that prepare_announce creates while a RegisterResend runs (the
-     registry of the interface was reset in between) gets no timer *)
-  let probes_of (d : dstate) : list (pkey * N) :=
-    flat_map (fun ir => map (fun np => ((fst ir, [fst np]), pb_next (snd np))) (rg_probing (snd ir))) (d_regs d) in
-  let key_next_eqb (a b : pkey * N) : bool := pkey_eqb (fst a) (fst b) && (snd a =? snd b) in
-  let after := probes_of post in
-  let unarmed :=
-    filter (fun kn => existsb (key_next_eqb kn) after)
-           (g_unarmed g ++ filter (fun kn => negb (existsb (key_next_eqb kn) (probes_of st2))) (probes_of st3)) in
-  let classify (w : option N) : list verdict :=
-    if negb (existsb (fun e => match w with Some w => fst e <? w | None => true end) (d_retrans post))
-       && forallb (fun kn => existsb (key_next_eqb kn) unarmed)
-                  (filter (fun kn => match w with Some w => snd kn <? w | None => true end) after)
-    then [VKnown 45] else [VFail 34] in
   let v_wake :=
     if d_dead post then []
     else match due, wake with
-         | Some d, Some w => if w <=? d then [] else classify wake
-         | Some _, None => classify wake
+         | Some d, Some w => if w <=? d then [] else [VFail 34]
+         | Some _, None => [VFail 34]
          | None, _ => []
          end in
   (* 4. second announcement one second after the first *)
@@ -478,11 +472,11 @@ Definition c07_iter (g : g7) (st : dstate) (it : iter) (post : dstate) (obs : li
     if unreg || late || d_dead post then []
     else flat_map (fun kv : pkey * (N * N * bool) =>
                      let '(t0, c, a) := snd kv in
-                     if (t0 + 1000 <=? now) && (c <? 2) then (if a || toggled then [VKnown 47] else [VFail 35]) else []) g_ann' in
+                     if (t0 + 1000 <=? now) && (c <? 2) then [VFail 35] else []) g_ann' in
   (mkG7 (fold_left (fun acc k => kset pkey_eqb k now acc) pn last0)
         (fold_left (fun acc k => incr pkey_eqb k acc) pn cnt0)
         (fold_left (fun acc k => incr rkey_eqb k acc) (probed_records obs) rcnt0)
-        est late (if d_dead post then None else due) g_ann' unreg toggled unarmed,
+        est late (if d_dead post then None else due) g_ann' unreg toggled,
    v_space ++ v_form ++ v_resp ++ v_wake ++ v_second).
 
 (* ---- running a checker next to the model over a whole history ------------------------------------- *)
@@ -493,7 +487,7 @@ Fixpoint chk_C09 (st : dstate) (its : list iter) (obs : list observed) : list ve
   match its, obs with
   | it :: t, o :: ot =>
     let '(st', _, _, _) := iterate st it in
-    (if d_dead st then [] else c09_iter st it st' (ob_outs o)) ++ chk_C09 st' t ot
+    (if d_dead st then [] else c09_iter st it st' (ob_outs o) (ob_wake o)) ++ chk_C09 st' t ot
   | _, _ => []
   end.
 
